@@ -45,7 +45,7 @@ func runC19(c *Ctx) {
 			Lock: rqT + ".mu", Fields: []string{rqT + ".queue"}, ReadNeedsW: true,
 			Exempt: map[string]string{"dht/provider/internal/queue.NewReprovideQueue": "constructor"},
 		}, "dht/provider/internal/queue")
-		c.Check("guarded accesses", 0, n >= 15 && m >= 6, "queue state is accessed in many guarded places", "found "+itoa(n)+" / "+itoa(m))
+		c.Check("guarded accesses", 0, n >= 8 && m >= 3, "queue state is accessed in many guarded places", "found "+itoa(n)+" / "+itoa(m))
 	}
 
 	// R2 paired updates in the prefix queue
@@ -337,7 +337,7 @@ func runC19(c *Ctx) {
 		cf := f.CFG()
 		info := f.Info()
 		n := 0
-		for _, as := range assignsTo(f, func(l ast.Expr) bool { id, ok := l.(*ast.Ident); return ok && id.Name == "prefixesToRemove" }) {
+		for _, as := range assignsTo(f, func(l ast.Expr) bool { id, ok := l.(*ast.Ident); return ok && eng.NameOf(id) == "prefixesToRemove" }) {
 			if _, isApp := eng.IsCallTo(info, as.Rhs[0], "builtin.append"); !isApp {
 				continue
 			}
